@@ -866,3 +866,45 @@ def rule_err_status(ctx, prop):
                           f"receive loop without raising the exit status to 2: the run can exit 0/1 although a file could "
                           f"not be read, parsed or verified", oc.loc(), cfg)
     return rep
+
+
+def rule_loop_exit(ctx, prop):
+    rep = Report(prop, "R-LOOPEXIT", "inside the directory-walk loop of `format`, only configuration / ignore-file errors may "
+                                     "abort the whole run; per-file failures must travel to the output thread as values")
+    allowed = re.compile(r"^(path_is_stylua_ignored|config::ConfigResolver::<'_>::load_configuration(_for_stdin)?)$")
+    for cfg, prog in ctx.programs.items():
+        f = prog.fn("stylua", "format")
+        if not rep.anchor(f is not None, "fn format", cfg):
+            continue
+        nexts = [b for b, t in f.calls() if re.search(r"<ignore::Walk as std::iter::Iterator>::next$", callee(t))]
+        if not rep.anchor(len(nexts) == 1, "walker loop in format", cfg):
+            continue
+        header = nexts[0]
+        loop = {b for b in f.reach_from(header) if header in f.reach_from(b) and b != header} | {header}
+        n = 0
+        for b, t in f.calls():
+            if b not in loop or not callee(t).endswith("ops::Try>::branch"):
+                continue
+            # does the Break edge leave the loop (return)?
+            nb = t["t"]
+            si = switch_info(f, nb)
+            if not si or si["targets"].get("Break") is None:
+                continue
+            brk = si["targets"]["Break"]
+            if header in f.reach_from(brk):
+                continue
+            n += 1
+            pr = provenance(f, t["args"][0])
+            calls = {c for c in prov_calls(pr)}
+            src = sorted(calls)
+            ok = bool(calls) and all(allowed.search(c) for c in calls)
+            rep.inst(f"stylua::format loop-abort-source {','.join(c.split('::')[-1] for c in src)}", {"sources": src,
+                                                                                                     "at": f.loc(t["sp"])}, cfg, ok=ok)
+            if not ok:
+                rep.violation(f"stylua::format walk-loop-aborts-on {','.join(c.split('::')[-1] for c in src) or 'unknown'}",
+                              f"an error from {src} inside the directory-walk loop makes `format` return early: the files "
+                              f"not yet dispatched are never formatted (a per-file failure must be sent to the output "
+                              f"thread instead)", f.loc(t["sp"]), cfg)
+        # panics / unwraps on per-file data inside the loop are the same hazard (reported, not armed)
+        rep.floor("early exits from the walk loop", n, 3, cfg)
+    return rep
